@@ -27,6 +27,7 @@ type Ctx struct {
 	derives  []string
 	c18info  map[string]*payloadInfo
 	c18scope []*ssa.Function
+	c18wire  map[*types.TypeName]bool
 }
 
 type RuleFunc func(c *Ctx)
